@@ -49,9 +49,8 @@ def check(facts):
         problems = {}
         okc = 0
         for p in paths:
-            gs = [(symex.show(g), v) for g, v in p.guards]
-            empty = any(re.search(r"start\(.*\) == end\(", g) and v is True for g, v in gs) or \
-                any(("start(" in g and "== end(" in g) and v is True for g, v in gs)
+            gs = symex.cguards(p)
+            empty = any(" == " in g and "start(" in g and "end(" in g and v is True for g, v in gs)
             if p.diverged == "loop":
                 kind = "empty-match advance" if empty else "cursor loop"
                 problems.setdefault(kind, []).append("a path loops (line %s) moving the cursor without emitting a step" % getattr(p, "loop_line", "?"))
